@@ -55,10 +55,15 @@ OVERLAY = {
     "sim/debug.rs": "sim__debug.rs",
     "sim/observer.rs": "sim__observer.rs",
 }
+# additional harness modules for a source file that already has one: kani file -> (source file, module name)
+EXTRA_OVERLAY = {
+    "sim__mem__copy.rs": ("sim/mem.rs", "verif_kani_copy"),
+}
 # harness module -> other harness modules whose helpers it uses
 MODULE_NEEDS = {
     "sim.rs": ["sim__mem.rs", "sim__frame.rs", "sim__device.rs"],
     "sim__frame.rs": ["sim__mem.rs"],
+    "sim__mem__copy.rs": ["sim__mem.rs"],
     "sim__debug.rs": ["sim.rs", "sim__mem.rs", "sim__frame.rs", "sim__device.rs"],
     "asm.rs": [],
     "ast__asm.rs": ["asm.rs"],
@@ -217,7 +222,7 @@ class Scratch:
             f.write("[net]\noffline = true\n")
         inv = {v: k for k, v in OVERLAY.items()}
         for m in self.modules:
-            srcrel = inv[m]
+            srcrel, modname = EXTRA_OVERLAY[m] if m in EXTRA_OVERLAY else (inv[m], "verif_kani")
             p = os.path.join(self.src, "src", srcrel)
             if not os.path.exists(p):
                 raise Undecided(f"lost anchor: source file src/{srcrel} does not exist in the tree")
@@ -239,7 +244,7 @@ class Scratch:
                     json.dump(meta, gf)
                 gen_line = '#[cfg(kani)] #[path = "%s"] pub(crate) mod verif_kani_gen;\n' % gen_path
             with open(p, "a") as f:
-                f.write('\n' + gen_line + '#[cfg(kani)] #[path = "%s"] pub(crate) mod verif_kani;\n' % os.path.join(KANI_DIR, m))
+                f.write('\n' + gen_line + '#[cfg(kani)] #[path = "%s"] pub(crate) mod %s;\n' % (os.path.join(KANI_DIR, m), modname))
         with open(stamp, "w") as f:
             f.write(self.key)
 
@@ -459,7 +464,7 @@ def kani_playback(scratch, o, native):
     inv = {v: k for k, v in OVERLAY.items()}
     modpath = o["harness"].rsplit("::", 2)[0]  # e.g. ast::sim
     for m, srcrel in inv.items():
-        if srcrel[:-3].replace("/", "::") == modpath:
+        if srcrel[:-3].replace("/", "::") == modpath and o.get("module", m) == m:
             modfile = m
     if modfile is None:
         return res
